@@ -482,4 +482,140 @@ Proof.
   intros [[_ Hs] Ht _]. split; [assumption|]. intros t Hin. rewrite Forall_forall in Ht. apply (ti_nopanic _ _ (Ht t Hin)).
 Qed.
 
+(* ------------------------------------------------------------------ *)
+(* (a) distinct claims: every index a thread holds -- through a returned
+   handle or through the creation in progress -- was won by one successful
+   CAS, and no two CAS win the same index *)
+
+Definition pcids_of (p : pc) : list N :=
+  match p with
+  | PRead x => match pv_get (cache a0) (x - 1) with Some id => [id] | None => [] end
+  | PRaise id | PGen id => [id]
+  | _ => []
+  end.
+Definition pcids (t : thread) : list N := pcids_of (tpc t).
+
+Definition tids (t : thread) : list N := map fst (mine t) ++ pcids t.
+Definition ids (c : config) : list N := flat_map tids (threads c).
+
+Lemma tids_claimed a t id : ale a0 a -> TI a t -> In id (tids t) -> claimed a id.
+Proof.
+  intros Ha Ht Hin. unfold tids in Hin. apply in_app_or in Hin. destruct Hin as [Hin|Hin].
+  - apply in_map_iff in Hin. destruct Hin as [e [<- He]]. apply (ti_mine _ _ Ht e He).
+  - unfold pcids, pcids_of in Hin. destruct (tpc t) as [|p|x| |p|id'|id'|h e] eqn:Epc; try contradiction.
+    + destruct (pv_get (cache a0) (x - 1)) as [id'|] eqn:Eg; [|contradiction].
+      destruct Hin as [<-|[]]. left. exists x. split; [apply (ti_read _ _ Ht _ Epc) | assumption].
+    + destruct Hin as [<-|[]]. apply (ti_raise _ _ Ht _ Epc).
+    + destruct Hin as [<-|[]]. apply (ti_gen _ _ Ht _ Epc).
+Qed.
+
+Lemma pcids_after_len p : pcids_of (after_len p) = [].
+Proof. unfold after_len. destruct (N.eqb p 0); reflexivity. Qed.
+
+(* the claims lemma: a step leaves the claims of the thread unchanged, or
+   adds one index that nobody holds *)
+Lemma tstep_tids a q t a' q' t' ev : G a -> TI a t -> tstep I a q t = (a', q', t', ev) ->
+  tids t' = tids t \/ exists id, tids t' = tids t ++ [id] /\ forall id', claimed a id' -> id' <> id.
+Proof.
+  intros [Ha Hst] Ht H. unfold tids. tstep_cases H; unf;
+    try (left; unfold pcids; norm; rewrite ?Epc; reflexivity).
+  - left. unfold pcids. norm. rewrite pcids_after_len, Epc. reflexivity.
+  - (* CAS on len succeeds: position [clen a] *)
+    right. pose proof (ti_dec _ _ Ht _ Epc) as Hp. destruct (i0_get H0 (clen a) Hp) as [id [Hg Hlt]].
+    exists id. unfold pcids. norm. rewrite Epc. cbn [pcids_of]. rewrite Hg, app_nil_r. split; [reflexivity|].
+    intros id' [[x [Hx Hgx]]|Hf] ->; [|lia].
+    assert (x = clen a) by (apply (i0_inj H0 x (clen a) id); auto; lia). lia.
+  - left. unfold pcids. norm. rewrite pcids_after_len, Epc. reflexivity.
+  - (* cache read *)
+    left. unfold pcids. norm. rewrite Epc. cbn [pcids_of]. rewrite <- (le_cache _ _ Ha), Eget. reflexivity.
+  - (* out of bounds: impossible *)
+    exfalso. pose proof (ti_read _ _ Ht _ Epc) as Hx. destruct (i0_get H0 x) as [id [Hg _]]; [lia|].
+    rewrite (le_cache _ _ Ha) in Eget. congruence.
+  - (* CAS on max_id succeeds: index [max_id a] *)
+    right. exists (max_id a). unfold pcids. norm. rewrite Epc. cbn [pcids_of]. rewrite app_nil_r. split; [reflexivity|].
+    intros id' [[x [Hx Hgx]]|Hf] ->; [|lia].
+    destruct (i0_get H0 x) as [id [Hg Hlt]]; [lia|]. rewrite Hgx in Hg. inversion Hg; subst.
+    pose proof (le_max _ _ Ha). lia.
+  - (* return: the index moves from the program counter to the handle list *)
+    left. unfold pcids. norm. rewrite Epc. cbn [pcids_of]. rewrite map_app, app_nil_r. reflexivity.
+Qed.
+
+Lemma NoDup_insert {A} (F1 T F2 : list A) x :
+  NoDup (F1 ++ T ++ F2) -> ~ In x (F1 ++ T ++ F2) -> NoDup (F1 ++ (T ++ [x]) ++ F2).
+Proof.
+  intros Hnd Hx. rewrite <- app_assoc. cbn [app]. rewrite app_assoc.
+  apply (Permutation_NoDup (l := x :: (F1 ++ T) ++ F2)); [apply Permutation_middle|].
+  rewrite <- app_assoc. constructor; assumption.
+Qed.
+
+Lemma ids_step c n : GI c -> NoDup (ids c) -> NoDup (ids (step_thread c n)).
+Proof.
+  intros [Hg Ht Hi] Hnd.
+  destruct (step_thread_cases c n) as [[-> _]|[l1 [t [l2 [a' [q' [t' [ev [Hl [Hn [Hs ->]]]]]]]]]]]; [assumption|].
+  unfold ids in *. norm. rewrite Hl in *. rewrite Hi in Hs. clear Hi.
+  rewrite flat_map_app in *. cbn [flat_map] in *.
+  pose proof Ht as Ht0. apply Forall_app in Ht. destruct Ht as [F1 F2]. inversion F2 as [|? ? Tt F3]; subst.
+  destruct (tstep_tids _ _ _ _ _ _ _ Hg Tt Hs) as [->|[id [-> Hfresh]]]; [assumption|].
+  apply NoDup_insert; [assumption|]. intros Hin.
+  assert (claimed (sh c) id) as Hc.
+  { rewrite <- flat_map_app with (l2 := t :: l2) in Hin. cbn [flat_map] in Hin.
+    change (In id (flat_map tids (l1 ++ t :: l2))) in Hin.
+    apply in_flat_map in Hin. destruct Hin as [t0 [Hin0 Hid]]. rewrite Forall_forall in Ht0.
+    apply (tids_claimed (sh c) t0); [apply Hg | apply Ht0; assumption | assumption]. }
+  apply (Hfresh id Hc). reflexivity.
+Qed.
+
+Lemma ids_run s : forall c, GI c -> NoDup (ids c) -> NoDup (ids (run c s)).
+Proof.
+  induction s as [|n s IH]; intros c Hc Hnd; cbn [run]; [assumption|].
+  apply IH; [apply GI_step | apply ids_step]; assumption.
+Qed.
+
+Lemma ids_new progs : ids (c_new a0 I progs) = [].
+Proof. unfold ids, c_new. norm. induction progs as [|p ps IH]; cbn; auto. Qed.
+
+Lemma NoDup_app_inv {A} (l1 l2 : list A) :
+  NoDup (l1 ++ l2) -> NoDup l1 /\ NoDup l2 /\ forall x, In x l1 -> In x l2 -> False.
+Proof.
+  induction l1 as [|y l1 IH]; cbn [app]; intros H.
+  - split; [constructor|]. split; [assumption|]. intros x [].
+  - inversion H as [|? ? Hy Hnd]; subst. destruct (IH Hnd) as [N1 [N2 N3]]. split.
+    + constructor; [|assumption]. intros Hin. apply Hy. apply in_or_app. left. assumption.
+    + split; [assumption|]. intros x [->|Hx] Hx2; [apply Hy; apply in_or_app; right; assumption | eauto].
+Qed.
+
+Lemma NoDup_flat_map_l {A B} (f g : A -> list B) l :
+  NoDup (flat_map (fun x => f x ++ g x) l) -> NoDup (flat_map f l).
+Proof.
+  induction l as [|x l IH]; cbn [flat_map]; intros H; [constructor|].
+  rewrite <- app_assoc in H. destruct (NoDup_app_inv _ _ H) as [N1 [N2 N3]].
+  destruct (NoDup_app_inv _ _ N2) as [_ [N4 _]].
+  apply NoDup_app_intro; [assumption | apply IH; assumption|].
+  intros y H1 H2. apply (N3 y H1). apply in_or_app. right.
+  apply in_flat_map in H2. destruct H2 as [z [Hz Hy]].
+  apply in_flat_map. exists z. split; [assumption|]. apply in_or_app. left. assumption.
+Qed.
+
+Lemma map_flat_map' {A B C} (f : B -> C) (g : A -> list B) l :
+  map f (flat_map g l) = flat_map (fun x => map f (g x)) l.
+Proof. induction l as [|x l IH]; cbn [flat_map map]; [reflexivity|]. rewrite map_app, IH. reflexivity. Qed.
+
+(* (a) the handles returned to all threads have pairwise distinct indices
+   (hence are pairwise distinct), each claimed from the initial free list
+   or fresh *)
+Theorem returned_distinct progs s :
+  let c := run (c_new a0 I progs) s in
+  NoDup (map fst (all_mine c)) /\ NoDup (all_mine c) /\
+  forall e, In e (all_mine c) -> claimed (sh c) (fst e) /\ snd e = join_gen a0 (fst e).
+Proof.
+  intros c.
+  assert (GI c) as Hc by (apply GI_run, GI_new).
+  assert (NoDup (ids c)) as Hnd by (apply ids_run; [apply GI_new | rewrite ids_new; constructor]).
+  assert (NoDup (map fst (all_mine c))) as Hm.
+  { unfold all_mine. rewrite map_flat_map'. unfold ids, tids in Hnd. apply NoDup_flat_map_l in Hnd. assumption. }
+  split; [assumption|]. split; [apply (NoDup_map_inv fst); assumption|].
+  intros e He. unfold all_mine in He. apply in_flat_map in He. destruct He as [t [Ht He]].
+  destruct Hc as [_ HT _]. rewrite Forall_forall in HT. destruct (ti_mine _ _ (HT t Ht) e He) as [M1 [_ M3]]. auto.
+Qed.
+
 End Phase.
